@@ -8,6 +8,7 @@ dir=/verif/seeded/$name
 checks="$*"
 [ -n "$checks" ] || checks=$(python3 -c "import json;print(json.load(open('$dir/meta.json'))['property'])")
 git -C /repo diff --quiet || { echo "/repo has uncommitted changes: refusing"; exit 2; }
+save=$(mktemp -d /var/tmp/seedcheck.XXXXXX); cp -a /verif/evidence/. "$save"/   # evidence of the unchanged tree is restored afterwards
 git -C /repo apply "$dir/patch.diff" || git -C /repo apply --3way "$dir/patch.diff" || { echo "patch does not apply"; git -C /repo checkout -- .; exit 2; }
 for c in $checks; do
   out=$(cd /verif && timeout 3600 ./check $c --tier ${TIER:-quick} 2>&1); rc=$?
@@ -15,4 +16,5 @@ for c in $checks; do
   if [ $rc -eq 1 ] && [ $v -gt 0 ]; then echo "$name $c DETECTED ($v violation lines) :: $(echo "$out" | grep '^VIOLATION' | head -2 | cut -c1-260)"; else echo "$name $c missed (exit $rc) :: $(echo "$out" | tail -1 | cut -c1-200)"; fi
 done
 git -C /repo checkout -- .
+cp -a "$save"/. /verif/evidence/; rm -rf "$save"
 git -C /repo status --short | grep -v '^??' | head -3
